@@ -206,3 +206,9 @@ Print Assumptions C04_source_points.
 Theorem C04_source_sites : gen_yield_sites = [] \/ gen_yield_sites = expected_sites.
 Proof. exact source_sites. Qed.
 Print Assumptions C04_source_sites.
+
+(** the shape of LinkedList::push read off callsite.rs: `next` is re-linked and the assertion re-checked INSIDE the CAS retry
+    loop, as the model's [PRgPushCas] retry does (it reloads the whole current list) *)
+Theorem C04_source_push_shape : gen_push_shape = [] \/ gen_push_shape = expected_push_shape.
+Proof. exact source_push_shape. Qed.
+Print Assumptions C04_source_push_shape.
